@@ -209,13 +209,38 @@ class CallGraph:
             return out
         return self.resolve_indirect(f, n) or {"<unknown>"}
 
-    def reaches(self, seeds, barriers=()):
-        """Set of function names that may (transitively) call a seed; edges out of `barriers` are cut."""
+    def snoop_edges(self):
+        """(caller, callee) pairs where the caller's only use of the apply family is the snooper's hook
+        (first argument APPLY_RECEIVE_SNOOP): receive_snoop() itself and functions that inline it."""
+        if getattr(self, "_snoop_edges", None) is not None:
+            return self._snoop_edges
+        out = set()
+        fam = ("apply", "apply_low", "safe_apply")
+        for name, fl in self.funcs.items():
+            sites = [n for f in fl for b, i, n in f.calls() if n.get("fn") in fam]
+            if not sites:
+                continue
+            def is_snoop(n):
+                a = n.get("args", [None])[0]
+                a0 = strip(a) if a is not None else {}
+                return (a0.get("k") == "Str" and a0.get("s") == "receive_snoop") or "RECEIVE_SNOOP" in str(a0.get("m") or "") + str((a or {}).get("m") or "")
+            if all(is_snoop(n) for n in sites):
+                for n in sites:
+                    out.add((name, n["fn"]))
+        self._snoop_edges = out
+        return out
+
+    def reaches(self, seeds, barriers=(), cut_edges=()):
+        """Set of function names that may (transitively) call a seed; edges out of `barriers` are cut, and so
+        are the individual (caller, callee) edges in cut_edges."""
         rev = {}
+        cut_edges = set(cut_edges)
         for a, bs in self.edges.items():
             if a in barriers:
                 continue
             for b in bs:
+                if (a, b) in cut_edges:
+                    continue
                 rev.setdefault(b, set()).add(a)
         seen = set(seeds)
         st = list(seeds)
